@@ -107,6 +107,53 @@ def echo_worker(analysis: Analysis, spec) -> dict:
     return {"qual": qual, "rows": rows}
 
 
+def load_worker(analysis: Analysis, ctxspec) -> list:
+    """Paths of load_fw that hand out an image: which object is converted, over which address range."""
+    ctx = analysis.context(*ctxspec)
+    it = analysis.new_interp(ctx)
+    st = it.new_state()
+    path = Sym(("root", "path"), "str")
+    outs = analysis.run_root(it, "ota:load_fw", [path], None, st)
+    rows = []
+    for out in outs:
+        kind, s, v = out
+        if kind != "val" or (isinstance(v, Const) and v.value is None):
+            continue
+        calls = [e for e in s.events if e.kind == "call"]
+        loads = [e for e in calls if e.name in ("intelhex.IntelHex.fromfile", "intelhex.IntelHex.loadhex", "intelhex.IntelHex.loadfile")]
+        conv = [e for e in calls if e.name in ("intelhex.IntelHex.tobinstr", "intelhex.IntelHex.tobinarray")]
+        opens = [e for e in calls if e.name == "builtins.open"]
+        row = {"ret": repr(v.key())[:100], "witness": describe_path(out, 16), "problems": []}
+        if len(conv) != 1 or not (isinstance(v.key(), tuple) and len(v.key()) > 1 and str(v.key()[1]).startswith(conv[0].name)):
+            row["problems"].append(f"the returned value {row['ret']} is not the result of one tobinstr() call on the loaded object")
+        else:
+            c = conv[0]
+            if not loads or any(l.recv is None or c.recv is None or l.recv.key() != c.recv.key() for l in loads):
+                row["problems"].append("the converted object is not the one the file was loaded into")
+            for l in loads:
+                fmt = l.kwargs.get("format", l.args[1] if len(l.args) > 1 else None)
+                if l.name != "intelhex.IntelHex.loadhex" and not (isinstance(fmt, Const) and fmt.value == "hex"):
+                    row["problems"].append("the file is not read as Intel-HEX (format != 'hex')")
+                src = l.args[0] if l.args else None
+                from_path = src is not None and (src.key() == path.key() or "'path'" in repr(src.key()) or any(isinstance(o.args[0], V) and "'path'" in repr(o.args[0].key()) for o in opens if o.args))
+                if not from_path:
+                    row["problems"].append("the loaded file is not the one named by the argument")
+            given = dict(c.kwargs)
+            for i, a in enumerate(c.args):
+                given[("start", "end", "pad", "size")[i] if i < 4 else f"arg{i}"] = a
+            for k, a in given.items():
+                kk = repr(a.key()) if isinstance(a, V) else repr(a)
+                if k == "pad":
+                    continue
+                if k == "start" and "minaddr" in kk:
+                    continue
+                if k == "end" and "maxaddr" in kk and "binop" not in kk:
+                    continue
+                row["problems"].append(f"tobinstr({k}=...) restricts the converted address range ({kk[:80]}): records outside it, e.g. beyond an address gap, are dropped")
+        rows.append(row)
+    return rows
+
+
 def block_size(analysis: Analysis, res: RuleResult) -> None:
     mod = analysis.p.modules["ota"]
     const = mod.assigns.get("FIRMWARE_BLOCK_SIZE")
@@ -234,7 +281,8 @@ def run(analysis: Analysis, tier: str) -> RuleResult:
     for summ in common.pmap(analysis, echo_worker, [(q, (last, "serial", "sync")) for q in ("ota:OTAFirmware.respond_fw", "ota:OTAFirmware.respond_fw_config")]):
         q = summ["qual"]
         if not summ["rows"]:
-            raise AnalysisError(f"C09-R1: no replying path of {q}")
+            res.add("C09-R1", f"{q} / serves scheduled nodes", False, "mysensors/ota.py", "no path returns a firmware response")
+            continue
         words = 3 if q.endswith("respond_fw") else 5
         for r in summ["rows"]:
             okw = len(r["parses"]) == 1 and r["parses"][0] == (True, words) and len(r["req_words"]) == words
@@ -260,11 +308,29 @@ def run(analysis: Analysis, tier: str) -> RuleResult:
                 a = r["args"]
                 ok = r["npack"] == 1 and len(a) == 4 and "'blocks'" in a[2] and "'crc'" in a[3] and "unpack0" in a[0] and "unpack1" in a[1] and "get" in a[0]
                 res.add("C09-R1", f"{q} / config response packs (type, version, blocks, crc) of the session's firmware", ok, "mysensors/ota.py", f"packed words {a}", r["witness"] if not ok else None)
+    # "in any order, any number of times": serving a block leaves the node's session in place
+    for summ in common.pmap(analysis, responder_worker, [("ota:OTAFirmware.respond_fw", (last, "serial", "sync"))]):
+        n_rep = 0
+        for r in summ["rows"]:
+            if not r["replies"]:
+                continue
+            n_rep += 1
+            last_move = max((m["idx"] for m in r["moves"]), default=None)
+            late = [p["store"] for p in r["pops"] if last_move is not None and p["idx"] > last_move]
+            ok = len(r["moves"]) == 1 and r["moves"][0]["store"] == "started" and not late
+            res.add("C09-R5", "ota:OTAFirmware.respond_fw / a served block leaves the node in `started`: any block can be asked for again, in any order", ok, "mysensors/ota.py", "the last session mutation of a replying path stores the node into `started`" if ok else f"after serving a block the node is not left in `started` (moves {[m['store'] for m in r['moves']]}, later removals {late}): later or repeated block requests go unanswered", r["witness"] if not ok else None)
+        if not n_rep:
+            res.add("C09-R5", "ota:OTAFirmware.respond_fw / serves blocks", False, "mysensors/ota.py", "no replying path")
+    lrows = common.pmap(analysis, load_worker, [(last, "serial", "sync")])[0]
+    if not lrows:
+        res.add("C09-R6", "ota:load_fw / hands out the loaded image", False, "mysensors/ota.py", "no path of load_fw returns an image")
+    for r in lrows:
+        res.add("C09-R6", "ota:load_fw / returns the whole address span (minaddr..maxaddr) of the Intel-HEX file named by its argument", not r["problems"], "mysensors/ota.py", "IntelHex().fromfile(open(path), format='hex'); tobinstr() without a range" if not r["problems"] else "; ".join(r["problems"]), r["witness"] if r["problems"] else None)
     block_size(analysis, res)
     single_source(analysis, res)
     padding(analysis, res)
     res.need("C09-R1", 8, "packing obligations")
     res.units = {"functions": ["ota:fw_hex_to_int", "ota:fw_int_to_hex", "ota:prepare_fw", "ota:compute_crc", "ota:OTAFirmware.respond_fw", "ota:OTAFirmware.respond_fw_config"], "source_digest": analysis.p.digest()}
-    res.not_decided = ["CRC-16/MODBUS value (crcmod)", "Intel-HEX loading (intelhex)", "concatenation equality of served blocks with the image"]
+    res.not_decided = ["CRC-16/MODBUS value (crcmod)", "Intel-HEX record decoding inside intelhex (only which object / range load_fw converts is decided)", "concatenation equality of served blocks with the image"]
     res.trusted = ["struct / binascii semantics"]
     return res
